@@ -8,6 +8,9 @@ CONSTANTS
   OldVersions = TRUE
   StartRecipes = {}
   MutOps = {}
+  SetVals = {"some", "full", "zero", "empty", "one", "onez"}
+  PeerFaults = TRUE
+  PeerToggles = TRUE
   MaxInit = 0
   MaxPresent = 1000
   MaxOps = 1000000
